@@ -63,6 +63,34 @@ func injections(bad sgen.M, kind string) []injection {
 		{"anyOf-branch", root(sgen.M{"anyOf": []any{obj(sgen.M{"type": "string"}), sgen.M{"type": "object", "properties": sgen.M{"z": b()}}}}, nil)},
 		{"additionalProperties-of-map", root(sgen.M{"type": "object", "additionalProperties": b()}, nil)},
 	}
+	// the element in an inline branch of a composition whose other branches are references, some of them REPEATED (the
+	// same definition twice, also through the two spellings of the definitions keyword) or recursive, before / between /
+	// after them: branches that are skipped as already in progress must not end the walk over the rest
+	shapeDefs := func() sgen.M {
+		return sgen.M{
+			"A":    sgen.M{"type": "object", "properties": sgen.M{"r": sgen.M{"type": "number"}}},
+			"B":    sgen.M{"type": "object", "properties": sgen.M{"w": sgen.M{"type": "number"}}},
+			"Tree": sgen.M{"type": "object", "properties": sgen.M{"kids": sgen.M{"type": "array", "items": sgen.M{"$ref": "#/$defs/Tree"}}}},
+		}
+	}
+	ref := func(n string) any { return sgen.M{"$ref": "#/$defs/" + n} }
+	for _, kw := range []string{"anyOf", "allOf"} { // (oneOf is not implemented by the tool: its branches are not read at all)
+		for li, mk := range []func(x any) []any{
+			func(x any) []any { return []any{ref("A"), ref("A"), x} },
+			func(x any) []any { return []any{ref("A"), ref("B"), ref("A"), x} },
+			func(x any) []any { return []any{ref("A"), x, ref("A")} },
+			func(x any) []any { return []any{x, ref("A"), ref("A")} },
+			func(x any) []any { return []any{ref("Tree"), ref("Tree"), x, ref("B")} },
+			func(x any) []any { return []any{ref("A"), ref("B"), ref("B"), ref("A"), obj(sgen.M{"type": "string"}), x} },
+		} {
+			badBranch := sgen.M{"type": "object", "properties": sgen.M{"z": b()}}
+			out = append(out, injection{fmt.Sprintf("%s-branch-among-repeated-refs-%d", kw, li), root(sgen.M{kw: mk(badBranch)}, shapeDefs())})
+			if li < 2 {
+				out = append(out, injection{fmt.Sprintf("%s-branch-among-repeated-refs-%d-in-items", kw, li), root(arr(sgen.M{kw: mk(badBranch)}), shapeDefs())},
+					injection{fmt.Sprintf("%s-deep-branch-among-repeated-refs-%d", kw, li), root(sgen.M{kw: mk(obj(obj(b())))}, shapeDefs())})
+			}
+		}
+	}
 	if kind == "empty-enum" {
 		// the element next to a valid twin that asks for the same Go type name and is generated first
 		// ("a-b" sorts before "a_b", both become AB): the name-collision shortcut compares the two nodes
